@@ -591,7 +591,33 @@ def m_split_at_mut(ex, st, m, a):
     return Agg('(tuple)', (Ref(r.addr, r.path, usize(s0), usize(k.v)), Ref(r.addr, r.path, usize(s0 + k.v), usize(n - k.v))))
 
 
+def m_partial_ord_default(ex, st, m, a):
+    """default methods lt / le / gt / ge of PartialOrd in terms of the type's own partial_cmp (which must have a MIR body)"""
+    ty, meth = m.group('ty'), m.group('meth')
+    r = ex.call(st, '<%s as PartialOrd>::partial_cmp' % ty, list(a))
+    if not (isinstance(r, Enum) and 'Some' in r.payload):
+        raise Inconclusive('partial_cmp returned %r' % (r,))
+    o = r.payload['Some'][0]
+    d = o.disc
+    if isinstance(d, int):
+        return {'lt': d == -1, 'le': d != 1, 'gt': d == 1, 'ge': d != -1}[meth]
+    neg1, pos1 = z3.BitVecVal((1 << 64) - 1, 64), z3.BitVecVal(1, 64)
+    return {'lt': d == neg1, 'le': d != pos1, 'gt': d == pos1, 'ge': d != neg1}[meth]
+
+
+def m_prim_cmp(ex, st, m, a):
+    x, y = a
+    while isinstance(x, Ref):
+        x = deref(ex, st, x)
+    while isinstance(y, Ref):
+        y = deref(ex, st, y)
+    op = {'lt': 'Lt', 'le': 'Le', 'gt': 'Gt', 'ge': 'Ge', 'eq': 'Eq', 'ne': 'Ne'}[m.group('meth')]
+    return ex.binop(op, x, y)
+
+
 STD_MODELS = [
+    (r'<&*(?:u8|u16|u32|u64|usize|i32|i64|isize|bool) as Partial(?:Ord|Eq)(?:<.+>)?>::(?P<meth>lt|le|gt|ge|eq|ne)', m_prim_cmp),
+    (r'<(?P<ty>[\w:]+) as PartialOrd>::(?P<meth>lt|le|gt|ge)', m_partial_ord_default),
     (r'core::slice::<impl \[.+\]>::split_at(_mut)?', m_split_at_mut),
     (r'<&(?:i64|u64|usize|i32|u32) as (?:std::ops::)?(?:Neg|Div<\w+>|Rem<\w+>|Add<\w+>|Sub<\w+>|Mul<\w+>)>::(?P<op>neg|div|rem|add|sub|mul)', m_ref_int_op),
     (r'<\[(u8|u16|u32|u64|usize|i64); (\d+)\] as Default>::default', m_default_array),
